@@ -149,6 +149,8 @@ class BaseIncrementalFeatureImportance(BaseIncrementalExplainer):
         else:
             raise NotImplementedError(f"The mode must be either 'sum', or 'delta' not '{mode}'.")
         try:
+            if factor == 0:  # NumPy scalars do not raise a ZeroDivisionError but yield NaN / inf
+                raise ZeroDivisionError
             return {feature: importance_value / factor for feature, importance_value in importance_values.items()}
         except ZeroDivisionError:
             return {feature: 0.0 for feature, importance_value in importance_values.items()}
